@@ -22,6 +22,7 @@ type c08bCase struct {
 	Cancellable bool    `json:"cancellable"`
 	Recursive   bool    `json:"recursive"`
 	Opt         bool    `json:"optimize"`
+	Many        bool    `json:"many,omitempty"` // File: Item+ (used by the C29 lookahead family)
 }
 
 func c08bGen(t *rapid.T) c08bCase {
@@ -54,7 +55,7 @@ func c08bGen(t *rapid.T) c08bCase {
 
 func (c *c08bCase) render(name string) string {
 	var sb strings.Builder
-	fmt.Fprintf(&sb, "language %s(go);\n\npackage = \"scratch/%s\"\neventBased = true\ncancellable = %v\nrecursiveLookaheads = %v\noptimizeTables = %v\n\n:: lexer\n\n'T': /T/\n'F': /F/\n';': /;/\n\n:: parser\n\n%%input File;\n\nFile:\n    Item ;\n\nItem:\n", name, name, c.Cancellable, c.Recursive, c.Opt)
+	fmt.Fprintf(&sb, "language %s(go);\n\npackage = \"scratch/%s\"\neventBased = true\ncancellable = %v\nrecursiveLookaheads = %v\noptimizeTables = %v\n\n:: lexer\n\n'T': /T/\n'F': /F/\n';': /;/\n\n:: parser\n\n%%input File;\n\nFile:\n    Item%s ;\n\nItem:\n", name, name, c.Cancellable, c.Recursive, c.Opt, map[bool]string{true: "+", false: ""}[c.Many])
 	for i, a := range c.C.Alts {
 		var ps []string
 		for _, p := range a.Preds {
